@@ -233,7 +233,8 @@ def write_evidence(pid, tier, seed, mod, m, wall, violations):
         'assumptions': list(getattr(mod, 'ASSUMPTIONS', [])),
         'wall_s': round(wall, 2), 'violations': violations,
     }
-    d = os.path.join(core.VERIF, 'evidence')
+    d = os.environ.get('VERIF_EVIDENCE_DIR') or \
+        os.path.join(core.VERIF, 'evidence')
     os.makedirs(d, exist_ok=True)
     tmp = os.path.join(d, '.%s.json.tmp' % pid)
     with open(tmp, 'w') as f:
@@ -243,7 +244,8 @@ def write_evidence(pid, tier, seed, mod, m, wall, violations):
 
 
 def write_replay(f):
-    d = os.path.join(core.VERIF, 'replays')
+    d = os.environ.get('VERIF_REPLAY_DIR') or \
+        os.path.join(core.VERIF, 'replays')
     os.makedirs(d, exist_ok=True)
     h = hashlib.blake2b(json.dumps(f['signature']).encode(),
                         digest_size=5).hexdigest()
